@@ -41,11 +41,9 @@ def shape_of(a):
     return tuple(np.asarray(a, dtype=object).shape)
 
 
-def assembly_unit(spec):
+def assembly_body(c, spec, m, tag=""):
     nS, nE = len(spec.states), len(spec.events)
-
-    def h(c):
-        m = built(spec)
+    if True:
         env, x, t, th = point(c, spec)
         bind(m, th)
         f_ref = [expr.ev(e, env) for e in spec.rhs()]
@@ -88,8 +86,81 @@ def assembly_unit(spec):
             r_num = m.eventRateVector(x, t)
             c.prove(shape_of(r_num) == (nE,), "eventRateVector(x,t) shape")
             c.prove(all_close(r_num, r_ref, c), "eventRateVector(x,t) == oracle")
+    return f_sym, V_sym, p_sym, f_num
+
+
+def assembly_unit(spec):
+    nS, nE = len(spec.states), len(spec.events)
+
+    def h(c):
+        assembly_body(c, spec, built(spec))
     return Unit("assembly[%s]" % spec.name, h, bounds={"states": nS, "params": len(spec.params), "events": nE},
                 program=spec.describe(), max_paths=50)
+
+
+def sigma_structures(states, kinds=("T", "B", "D")):
+    """every single transition over `states`: T (ordered pairs), B by destination, B by origin, D"""
+    out = []
+    for o in states:
+        for d in states:
+            if o != d and "T" in kinds:
+                out.append(("T", o, d, False))
+    if "B" in kinds:
+        for s in states:
+            out.append(("B", None, s, False))
+            out.append(("B", s, None, True))
+    if "D" in kinds:
+        for s in states:
+            out.append(("D", s, None, False))
+    return out
+
+
+def sigma_specs(k, kinds=("T", "B", "D"), prefix=True, states=("X", "Y", "Z")):
+    """Sigma layer: a concrete prefix model plus k transitions of every structure, each with a free rate
+    parameter r_i and a free magnitude parameter m_i; transitions grouped into events in every way
+    (set partitions of consecutive runs)"""
+    import itertools
+    v = expr.Var
+    singles = sigma_structures(list(states), kinds)
+    groupings = {1: [[1]], 2: [[1, 1], [2]], 3: [[1, 1, 1], [2, 1], [1, 2], [3]]}[k]
+    specs = []
+    for combo in itertools.product(singles, repeat=k):
+        for grp in groupings:
+            params = ["q"] + ["r%d" % i for i in range(k)] + ["m%d" % i for i in range(k)]
+            events = []
+            if prefix:
+                events.append(expr.Ev(v("q") * v(states[0]) * v(states[1]), [expr.Tr("T", states[0], states[1])]))
+            i = 0
+            ok = True
+            for size in grp:
+                trs = []
+                for _ in range(size):
+                    kind, o, d, by_o = combo[i]
+                    trs.append(expr.Tr(kind, origin=o, destination=d, magnitude=v("m%d" % i), birth_by_origin=by_o))
+                    i += 1
+                events.append(expr.Ev(v("r%d" % (i - size)), trs))
+            name = "sigma%d[%s|%s]" % (k, ";".join("%s:%s>%s%s" % (a, b, cc, "o" if dd else "") for a, b, cc, dd in combo), "+".join(map(str, grp)))
+            odes = [(states[-1], v("q") * v(states[0]))] if prefix else []
+            specs.append(expr.ModelSpec(name, list(states), params, events, odes))
+    return specs
+
+
+def sigma_unit(specs, idx, extra=None, tag="C01"):
+    def h(c):
+        for spec in specs:
+            m = spec.build()
+            res = assembly_body(c, spec, m)
+            if extra is not None:
+                extra(c, spec, m, res)
+    return Unit("%s.sigma[chunk %d: %d structures, first=%s]" % (tag, idx, len(specs), specs[0].name), h,
+                bounds={"structures": len(specs), "states": 3, "rates_and_magnitudes": "free symbols"},
+                program={"sigma_chunk": idx, "n": len(specs), "first": specs[0].name, "last": specs[-1].name}, max_paths=10,
+                n_programs=len(specs))
+
+
+def chunks(lst, n):
+    size = max(1, (len(lst) + n - 1) // n)
+    return [lst[i:i + size] for i in range(0, len(lst), size)]
 
 
 class C01(Check):
@@ -109,7 +180,17 @@ class C01(Check):
             fam += expr.generate(seed, 4)
         else:
             fam += expr.generate(seed, 40)
-        return [assembly_unit(s) for s in fam]
+        us = [assembly_unit(s) for s in fam]
+        sig = sigma_specs(1) + (sigma_specs(2) if tier != "quick" else sigma_specs(2)[::7])
+        if tier != "quick":
+            sig += sigma_specs(3)[::3]
+        self.n_sigma = len(sig)
+        for i, ch in enumerate(chunks(sig, 16 if tier == "quick" else 64)):
+            us.append(sigma_unit(ch, i))
+        return us
+
+    def extra(self, tier, seed):
+        return {"sigma_structures": getattr(self, "n_sigma", 0)}, []
 
 
 CHECK = C01()
